@@ -6,14 +6,16 @@ from checks import vmm_b_common as vb
 
 HARNESS = ["vmm/c06_cow_test.go"]
 BUGS = ["NoRWTest", "NoMapGuard", "CopyReversed", "KeepCoW", "NoTmpGuard", "ResumeAfterAllocFail", "RetargetBeforeCopy",
-        "GuardExactFlags", "ResumeAfterTmpFail", "NoFlush", "FlushBeforeRetarget", "GpfReturns"]
+        "GuardExactFlags", "ResumeAfterTmpFail", "NoFlush", "FlushBeforeRetarget", "GpfReturns", "StaleUpperEntry"]
 ASSUME = [
     "hardware semantics assumed by the software MMU: 4-level walk, present bit, frame = bits 12-51; INVLPG = the address was passed "
     "to the flush seam, and the translation of the page at that moment is what the TLB reloads; the aliases that let the handler read "
     "the faulting page are refreshed whenever the code reaches a seam (allocator, MapTemporary, Unmap, flush), i.e. a reordering "
     "of entry update and copy with no seam call in between is not observable",
     "the huge-page bit is never set on upper-level entries (the vmm package rejects huge pages everywhere); all other flag "
-    "combinations of the last-level entry and every presence pattern of the upper levels are generated",
+    "combinations of the last-level entry, every presence pattern of the upper levels and every RW/user/bit-9/no-execute "
+    "combination on each upper level (present, or present above an absent next level) are generated; the hardware walk decides: "
+    "only the present bits of upper levels matter, and a resumed fault must leave every upper-level entry (flags and table) as it was",
     "flags compared after a copy-on-write fault: present, writable, user, copy-on-write, no-execute (cache/accessed/dirty/global "
     "bits are generated as inputs but not constrained)",
     "zero-frame protection is checked as: no call of Map, PageDirectoryTable.Map (active and inactive space), MapTemporary, MapRegion, "
@@ -51,15 +53,18 @@ def run(ctx):
     ctx.rule = ("case = script of calls on a freshly initialised vmm (vmm.Init, pages 1-3 lazily allocated from the zero frame, page 4 "
                 "private): page faults (page, offset, error code, failing allocation index, failing temporary mapping), attempts to map "
                 "the zero frame through every entry point, fork-like sharing, flag/presence changes, stores, GPF; leg G replays every "
-                "transition of the TLC small scope (all 32 last-level flag subsets x upper-level presence x error codes x failures; all "
+                "transition of the TLC small scope (all 32 last-level flag subsets x upper-level presence x error codes x failures; all 16 "
+                "flag combinations on each upper level x last-level subsets, and above an absent level; all "
                 "call sequences up to the bound), leg T seeded random histories of 8-48 calls over 6 pages; a case is distinct by its "
                 "script and non-trivial when it contains a fault, a GPF or a refused mapping")
     d = ctx.spec_dir("vmm")
     tier = "Quick" if q else "Full"
     c1 = os.path.join(ctx.work, "c06_cases_flags.ndjson")
     c2 = os.path.join(ctx.work, "c06_cases_seq.ndjson")
+    c3 = os.path.join(ctx.work, "c06_cases_upper.ndjson")
     # ---- leg M
-    for cfg, cf, w in (("MCCoWFlags" + tier, c1, 2 if q else 8), ("MCCoWSeq" + tier, c2, 4 if q else 16)):
+    for cfg, cf, w in (("MCCoWFlags" + tier, c1, 2 if q else 8), ("MCCoWUpper" + tier, c3, 3 if q else 8),
+                       ("MCCoWSeq" + tier, c2, 4 if q else 16)):
         r = ctx.model_check(d, "MCCoW", cfg, env={"CASES": cf}, workers=w, timeout=1500, coverage=not q)
         if r.coverage_zero:
             raise vlib.Broken("an action of CoW was never taken (vacuous scope): %s" % r.coverage_zero)
@@ -68,7 +73,7 @@ def run(ctx):
     # ---- leg G
     allc = os.path.join(ctx.work, "c06_cases.ndjson")
     with open(allc, "w") as f:
-        for p in (c1, c2):
+        for p in (c1, c3, c2):
             with open(p) as g:
                 f.write(g.read())
     gcases = os.path.join(ctx.work, "c06_gcases.ndjson")
